@@ -9,13 +9,16 @@ LAG = [('tea_map::MapBasic::shift', False), ('MapValidBasic::vshift', False),
        ('MapValidVec::vdiff', True), ('MapValidVec::vpct_change', True)]
 
 RULES = dict(seqrules.RULES)
+RULES['SEQ.fill-value'] = ('every position whose lagged operand does not exist carries the same '
+                          'fill expression - the caller\'s fill value (defaulted to null) - on '
+                          'every path, including the early return for a lag beyond the series')
 RULES['SEQ.fill-through'] = ('where the lagged operand does not exist the output is the fill '
                              'value itself: a fill fed through the element function must be a '
                              'null that the function propagates')
 
 
 def check_lag(run, F, rules=('SEQ.len', 'SEQ.ret-len', 'SEQ.underflow', 'SEQ.pos', 'SEQ.causal',
-                             'SEQ.fill-through')):
+                             'SEQ.fill-through', 'SEQ.fill-value')):
     for r in rules:
         run.rule(r, RULES[r])
     n = 0
@@ -30,6 +33,8 @@ def check_lag(run, F, rules=('SEQ.len', 'SEQ.ret-len', 'SEQ.underflow', 'SEQ.pos
         n += seqrules.check_lag_positions(sub, fn, ev, nsym, diff=diff)
         if diff and 'SEQ.fill-through' in rules:
             fill_through(run, fn, ev)
+        if 'SEQ.fill-value' in rules:
+            fill_value(run, fn, ev)
     run.floor('SEQ.pos', 'lag-family pieces', n, 18)
     return n
 
@@ -82,3 +87,22 @@ def fill_through(run, fn, ev):
                            % ('fill is a null literal and f returns null on it' if null_fill and guarded
                               else 'the fill value is combined with x[p] instead of being emitted '
                                    '(mirror arm emits the fill itself)', tdesc))
+
+
+def fill_value(run, fn, ev):
+    """All repeat_n fills of a lag function spell the same value once lets are inlined."""
+    import dtree
+    import nullrules as N
+    vals = {}
+    for desc, nodes in getattr(ev, 'fill_nodes', {}).items():
+        for nd in nodes:
+            en = dtree.env_at(fn.hir, nd, N.self_env(fn))
+            vals.setdefault(dtree.canon(nd, en), []).append(nd)
+    has_value = any(b['name'] == 'value' for p in fn.params for b in __import__('facts')._pat_binds(p))
+    ok = len(vals) == 1
+    if ok and has_value:
+        v = list(vals)[0]
+        ok = v in ('value', 'value.unwrap_or(NULL)')
+    first = [x for v in vals.values() for x in v]
+    run.ob('SEQ.fill-value', fn, 'one fill value on every path', ok, loc(first[0]) if first else fn.loc(),
+           'fill expressions: %s' % sorted(vals))
